@@ -8,6 +8,7 @@ import NdnVerif.C15.LemmasBolt
 import NdnVerif.C15.LemmasMemStore
 import NdnVerif.C15.LemmasBoltStore
 import NdnVerif.C15.LemmasClient
+import NdnVerif.C15.LemmasQuiet
 namespace Ndn.C15
 
 /-! ### Produce: segmentation -/
@@ -623,5 +624,108 @@ example : (∀ e ∈ exEvs, evIdx e < [exA, exB].length) ∧
     (Client.run exServe (fun _ _ _ => true) [exA, exB] exEvs).1.impossible = false ∧
     outsCbs 0 (Client.run exServe (fun _ _ _ => true) [exA, exB] exEvs).2 = [⟨[7], false, false⟩, ⟨[8], true, false⟩] ∧
     outsCbs 1 (Client.run exServe (fun _ _ _ => true) [exA, exB] exEvs).2 = [⟨[], true, true⟩] := by decide
+
+/-! ### the scheduler of the multi-stream fetcher: termination, progress, no starvation
+      (`rrSegFetcher.doCheck` after fix 37d53c2; helper lemmas in LemmasPick.lean / LemmasQuiet.lean) -/
+
+/-- **every call returns**: for ANY fetcher state (any stream list, any round-robin index, any fetch
+    states — reachable or not) the selection loop of `doCheck` ends within the `(L+1)²+1` iterations the
+    model grants it; the explicit non-termination outcome `spin` is unreachable in every run. -/
+theorem selection_loop_returns (c : Client) : (pickOf c).2.2.2 = false :=
+  pick_returns c.cons _ c.streams c.rrIndex none (fun _ h => by cases h) (pick_fuel_ok _ _)
+
+theorem run_never_spins (serve : Name → Bool → Option Pkt) (delivers : Nat → Key → Nat → Bool)
+    (names : List Name) (evs : List Ev) : (Client.run serve delivers names evs).1.spin = false :=
+  (Inv4.run serve delivers names evs).spin
+
+/-- before the fix the loop did not return (corpus/C15/concurrent-failed-stream-spin.ops): with the
+    reset of `first` removed it is exactly this termination measure that fails; here the fixed loop on
+    the same shape (finished stream first, a stream with all Interests out behind it) -/
+def exSpinShape : Client :=
+  { cons := [{ f := { complete := true } }, { f := { segCnt := some 1, wnd2 := 1 } }]
+    streams := [0, 1]
+    rrIndex := 1 }
+
+example : (pickOf exSpinShape).2.2 = (none, false) := by decide
+
+/-- the selection loop hands out Interests only to queued streams that have a segment to request
+    (not finished, not waiting for their first segment, not all Interests out), and it drops only
+    finished streams from the queue -/
+theorem selection_returns_only_ready (c : Client) :
+    (∀ s : Nat, (pickOf c).2.2.1 = some s → s ∈ (pickOf c).1 ∧ eligible (fOf c.cons s) = true) ∧
+    (∀ x ∈ c.streams, x ∈ (pickOf c).1 ∨ (fOf c.cons x).complete = true) :=
+  ⟨(pick_spec c.cons _ c.streams c.rrIndex none (fun _ h => by cases h)).2.1,
+   pick_removed c.cons _ c.streams c.rrIndex none⟩
+
+/-- **a queued stream is served**: in every run, after every event (Data, final failure, retry, metadata
+    result — whichever stream it belongs to): if the window has room and some stream is queued in the
+    fetcher, then a queued unfinished stream has Interests out (so the next result calls `doCheck`
+    again) — a stream that could be served is never left behind an idle fetcher.  This is what the
+    seeded change C15-3 (no `queueCheck` on failure results) broke.
+    `hserve`: the producer's store answers an exact Get with a packet of that name. -/
+theorem queued_stream_eventually_served (serve : Name → Bool → Option Pkt)
+    (hserve : ∀ (nm : Name) (p : Pkt), serve nm false = some p → p.name = nm)
+    (delivers : Nat → Key → Nat → Bool) (names : List Name) (evs : List Ev) :
+    let c := (Client.run serve delivers names evs).1
+    c.outstanding < window → c.streams ≠ [] →
+      ∃ x ∈ c.streams, (c.getCons x).f.complete = false ∧ (c.getCons x).pending ≠ [] := by
+  intro c hroom hne
+  have I4 := Inv4.run serve delivers names evs
+  have I5 := (run_inv5 serve hserve delivers names evs).1
+  rcases I4.served with h | h | ⟨x, hx, hw⟩
+  · exact absurd h (by show ¬ c.outstanding ≥ window; omega)
+  · exact absurd h hne
+  · refine ⟨x, hx, ?_, (I5.k x).waiting_pending (by rw [← fOf_eq]; exact hw)⟩
+    rw [fOf_eq] at hw
+    simp only [waiting, Bool.and_eq_true, Bool.not_eq_true'] at hw
+    exact hw.1
+
+/-- **no starvation**: in every run of the multi-stream client — any number of concurrent Consume calls,
+    any order of results, any of them failures — once no Interest is pending any more (no segment
+    Interest, no metadata Interest), EVERY Consume has completed (with content or with an error). -/
+theorem no_starvation_at_quiescence (serve : Name → Bool → Option Pkt)
+    (hserve : ∀ (nm : Name) (p : Pkt), serve nm false = some p → p.name = nm)
+    (delivers : Nat → Key → Nat → Bool) (names : List Name) (evs : List Ev)
+    (hq : ∀ o : Nat, ((Client.run serve delivers names evs).1.getCons o).pending = [] ∧
+      ((Client.run serve delivers names evs).1.getCons o).metaPending = false) :
+    ∀ o : Nat, o < names.length → ((Client.run serve delivers names evs).1.getCons o).f.complete = true :=
+  quiescent_all_complete serve hserve delivers names evs hq
+
+/-- **completion exactly once, per Consume, also under concurrency**: in every run every Consume's
+    callback reports completion at most once; at quiescence (no Interest pending) it has reported it
+    exactly once (unless the Go index panic on an empty Data name was hit, which is an explicit
+    outcome of the model). -/
+theorem completion_exactly_once_concurrent (serve : Name → Bool → Option Pkt)
+    (hserve : ∀ (nm : Name) (p : Pkt), serve nm false = some p → p.name = nm)
+    (delivers : Nat → Key → Nat → Bool) (names : List Name) (evs : List Ev)
+    (hidx : ∀ e ∈ evs, evIdx e < names.length) (o : Nat) (ho : o < names.length) :
+    nComplete (outsCbs o (Client.run serve delivers names evs).2) ≤ 1 ∧
+    ((∀ o' : Nat, ((Client.run serve delivers names evs).1.getCons o').pending = [] ∧
+        ((Client.run serve delivers names evs).1.getCons o').metaPending = false) →
+      ((Client.run serve delivers names evs).1.getCons o).f.panic = false →
+      nComplete (outsCbs o (Client.run serve delivers names evs).2) = 1) := by
+  obtain ⟨e1, e2⟩ := concurrent_fetch_refines_single serve delivers names evs o hidx
+  obtain ⟨r1, r2, _⟩ := runFetch_once (runArrivals serve delivers names evs o) {} rfl rfl
+  rw [e2]
+  refine ⟨r1, fun hq hp => ?_⟩
+  have hc := quiescent_all_complete serve hserve delivers names evs hq o ho
+  have e1' := congrArg (fun f : Fetch => (f.complete, f.panic)) e1
+  simp only at e1'
+  obtain ⟨ec, ep⟩ := Prod.mk.inj e1'
+  exact r2 (by rw [← ec]; exact hc) (by rw [← ep]; exact hp)
+
+/-- non-vacuity: two concurrent Consume calls, one of them fails while the other completes; at
+    quiescence both have completed, each exactly once -/
+example :
+    let r := Client.run exServe (fun _ _ _ => true) [exA, exB] exEvs
+    (∀ o, (r.1.getCons o).pending = [] ∧ (r.1.getCons o).metaPending = false) ∧
+    (r.1.getCons 0).f.complete = true ∧ (r.1.getCons 1).f.complete = true ∧
+    nComplete (outsCbs 0 r.2) = 1 ∧ nComplete (outsCbs 1 r.2) = 1 := by
+  refine ⟨?_, by decide, by decide, by decide, by decide⟩
+  intro o
+  match o with
+  | 0 => decide
+  | 1 => decide
+  | n + 2 => exact ⟨rfl, rfl⟩
 
 end Ndn.C15
